@@ -1,0 +1,22 @@
+//go:build verif
+
+package forkexec
+
+// Contracts for gocv (see /verif/DESIGN.md). Comment-only; compiled only with
+// the build tag "verif".
+
+// prepareFds: fd[k] is the k-th listed descriptor (the close marker ^uintptr(0)
+// becomes -1) and nextfd lies above the list length and above every listed number.
+//@ func pkg/forkexec.prepareFds props C06
+//@   arith int
+//@   requires forall k int :: 0 <= k && k < len(files) ==> files[k] < 2147483648 || files[k] == 18446744073709551615
+//@   assigns nothing
+//@   ensures len(result.0) == len(files) && fresh(result.0) && soff(result.0) == 0
+//@   ensures forall k int :: 0 <= k && k < len(files) ==> result.0[k] == int(files[k])
+//@   ensures result.1 > len(files)
+//@   ensures forall k int :: 0 <= k && k < len(files) ==> result.1 > int(files[k])
+//@   ensures result.1 <= 2147483648 || result.1 <= len(files) + 1
+//@   loop 0: invariant -1 <= rangeindex && rangeindex < len(files)
+//@   loop 0: invariant nextfd >= len(files) && (nextfd < 2147483648 || nextfd == len(files))
+//@   loop 0: invariant forall k int :: 0 <= k && k <= rangeindex ==> fd[k] == int(files[k]) && nextfd >= int(files[k])
+//@   loop 0: decreases len(files) - rangeindex
